@@ -53,29 +53,79 @@ def main():
             raise Untranslatable("with-item is not a threading lock")
         locked = True
         body = w.body
-    if len(body) != 1 or not isinstance(body[0], ast.If):
-        raise Untranslatable("section is not a single `if not flag:` block")
-    guard = body[0]
-    t = guard.test
-    if not (isinstance(t, ast.UnaryOp) and isinstance(t.op, ast.Not) and is_flag(t.operand, flag)) or guard.orelse:
-        raise Untranslatable("guard is not `if not flag:`")
-    recheck = locked  # the guard sits inside the locked section
-    inner = [s for s in guard.body if not isinstance(s, ast.FunctionDef)]
-    # items = list(filter(..., MAP.items())) ; for ... in items: resolve_types(...) ; flag = True
-    if len(inner) != 3:
-        raise Untranslatable(f"guarded block has {len(inner)} statements (expected snapshot, loop, flag assignment)")
-    snap, loop, setf = inner
-    if not (isinstance(snap, ast.Assign) and isinstance(snap.value, ast.Call)):
-        raise Untranslatable("first statement is not an assignment of a call")
-    src = ast.unparse(snap.value)
-    materialised = isinstance(snap.value.func, ast.Name) and snap.value.func.id in ("list", "tuple") and ".items()" in src
-    if not materialised and ".items()" not in src:
-        raise Untranslatable("snapshot does not iterate the registry items")
-    target = snap.targets[0].id if isinstance(snap.targets[0], ast.Name) else None
-    if not (isinstance(loop, ast.For) and isinstance(loop.iter, ast.Name) and loop.iter.id == target and "resolve_types" in ast.unparse(loop)):
-        raise Untranslatable("second statement is not the resolve loop over the snapshot")
-    if not (isinstance(setf, ast.Assign) and is_flag(setf.targets[0], flag) and isinstance(setf.value, ast.Constant) and setf.value.value is True):
-        raise Untranslatable("third statement does not set the flag")
+    # the once-only block: either `if not flag: <block>` or `if flag: return` followed by <block> (same meaning)
+    if len(body) == 1 and isinstance(body[0], ast.If) and not body[0].orelse and isinstance(body[0].test, ast.UnaryOp) \
+            and isinstance(body[0].test.op, ast.Not) and is_flag(body[0].test.operand, flag):
+        inner = body[0].body
+        recheck = locked
+    elif body and isinstance(body[0], ast.If) and is_flag(body[0].test, flag) and not body[0].orelse \
+            and len(body[0].body) == 1 and isinstance(body[0].body[0], ast.Return) and body[0].body[0].value is None:
+        inner = body[1:]
+        recheck = locked
+    elif not locked and not fast:
+        raise Untranslatable("section is not guarded by the flag")
+    else:
+        # no re-check of the flag inside the section
+        inner = body
+        recheck = False
+        if not locked:
+            recheck = False
+    inner = [s for s in inner if not isinstance(s, ast.FunctionDef) and not (isinstance(s, ast.Expr) and isinstance(s.value, ast.Constant))]
+    if len(inner) < 2:
+        raise Untranslatable("guarded block is too short (expected [snapshot,] resolve loop, flag assignment)")
+    setf = inner[-1]
+    if not (isinstance(setf, ast.Assign) and len(setf.targets) == 1 and is_flag(setf.targets[0], flag) and isinstance(setf.value, ast.Constant) and setf.value.value is True):
+        raise Untranslatable("the last statement of the section does not set the flag")
+    loops = [s for s in inner[:-1] if isinstance(s, ast.For)]
+    if len(loops) != 1 or "resolve_types" not in ast.unparse(loops[0]):
+        raise Untranslatable("the section does not consist of one resolve loop before the flag assignment")
+    loop = loops[0]
+    pre = inner[: inner.index(loop)]
+    if inner.index(loop) != len(inner) - 2:
+        raise Untranslatable("statements between the resolve loop and the flag assignment")
+    for st in ast.walk(loop):
+        if isinstance(st, ast.Assign) and any(is_flag(t, flag) for t in st.targets):
+            raise Untranslatable("the flag is assigned inside the resolve loop")
+    locals_ = {}
+    for st in pre:
+        if isinstance(st, ast.Assign) and len(st.targets) == 1 and isinstance(st.targets[0], ast.Name):
+            locals_[st.targets[0].id] = st.value
+        else:
+            raise Untranslatable(f"statement before the resolve loop: {ast.unparse(st)[:60]}")
+
+    def materialised_expr(e, depth=0):
+        """is the iterated value a concrete list / tuple built BEFORE the loop starts (so that resolve_types, which adds keys to
+        the registry, cannot disturb the iteration)?"""
+        if depth > 4:
+            raise Untranslatable("iterable defined through too many helpers")
+        if isinstance(e, ast.Name) and e.id in locals_:
+            return materialised_expr(locals_[e.id], depth + 1)
+        if isinstance(e, (ast.ListComp, ast.List, ast.Tuple)):
+            return True
+        if isinstance(e, ast.Call) and isinstance(e.func, ast.Name) and e.func.id in ("list", "tuple", "sorted"):
+            return True
+        if isinstance(e, ast.Call) and isinstance(e.func, ast.Name) and inspect.isfunction(getattr(_hooks, e.func.id, None)) and not e.args and not e.keywords:
+            h = ast.parse(inspect.getsource(getattr(_hooks, e.func.id))).body[0]
+            hb = [s for s in h.body if not (isinstance(s, ast.Expr) and isinstance(s.value, ast.Constant))]
+            if len(hb) == 1 and isinstance(hb[0], ast.Return) and hb[0].value is not None:
+                return materialised_expr(hb[0].value, depth + 1)
+            raise Untranslatable(f"helper {e.func.id} is not a single return")
+        if isinstance(e, (ast.GeneratorExp,)) or (isinstance(e, ast.Call) and ast.unparse(e.func).split(".")[-1] in ("filter", "map", "items", "values", "keys", "iter")):
+            return False
+        if isinstance(e, ast.Attribute) or isinstance(e, ast.Name):
+            return False   # the registry itself / an alias of it: iterated live
+        raise Untranslatable(f"iterable {ast.unparse(e)[:60]}")
+
+    def registry_src(e, depth=0):
+        src = ast.unparse(e)
+        if isinstance(e, ast.Name) and e.id in locals_:
+            return registry_src(locals_[e.id], depth + 1)
+        if isinstance(e, ast.Call) and isinstance(e.func, ast.Name) and inspect.isfunction(getattr(_hooks, e.func.id, None)) and depth < 4:
+            return inspect.getsource(getattr(_hooks, e.func.id))
+        return src
+    if "ALL_TYPES_MAP" not in registry_src(loop.iter):
+        raise Untranslatable("the resolve loop does not range over the registry ALL_TYPES_MAP")
+    materialised = materialised_expr(loop.iter)
     b = lambda x: "true" if x else "false"  # noqa: E731
     print("-- generated by tools/extract/x_conc.py\nimport LspVerif.Core.Conc\nopen LspVerif.Conc\nnamespace Gen")
     print(f"def shape : Shape := {{ fastPath := {b(fast)}, locked := {b(locked)}, recheck := {b(recheck)}, materialised := {b(materialised)} }}")
